@@ -151,8 +151,8 @@ func plainContainers(t types.Type) types.Type {
 	switch v := types.Unalias(t).(type) {
 	case *types.Named:
 		switch v.Underlying().(type) {
-		case *types.Map, *types.Slice, *types.Chan:
-			return plainContainers(v.Underlying())
+		case *types.Map, *types.Slice, *types.Chan, *types.Signature:
+			return plainContainers(v.Underlying()) // (type frameCancel func(): still that function type)
 		}
 	case *types.Map:
 		return types.NewMap(plainContainers(v.Key()), plainContainers(v.Elem()))
